@@ -10,6 +10,9 @@ NOTE = ("Trusted base: Coq 8.16.1 kernel (vm_compute in closed-term lemmas, no n
         "canonicalisation); tools/py2v.py for generated units. The theorems are about hand-written Gallina models; the "
         "models are tied to /repo by the correspondence run of this check (and by the translator where stated). ")
 CLAIMED = {
+ 'C02': dict(cat='proof', tech='Coq theorems over Gallina models of the quota functions (regenerated from quota.py and proved equal to textbook values), QuotaDistributor and LargestRemainder + extraction-based correspondence; capped clause refuted by a machine-checked counterexample',
+             text='Textbook quota values proved for all votes>=0, seats>=1 against the code generated from quota.py (incl. round-half-up); whole-quota stage, the three over-award policies, the remainder stage (= get_n_best on exact remainders, at most one seat per party, exact total) proved for every input on the domain where no whole-quota count exceeds a cap. The capped clause is false of the faithful model (C02_caps_refuted, C02_lr_caps_refuted): recorded as known findings C02-capbranch / C02-lr-caps and C02-lr-underfill; two defects repaired by fix: commits.',
+             ref='DESIGN.md 3 C02', note='Modelled, not verified: QuotaDistributor.evaluate/_subtract_overaward, LargestRemainder.evaluate (Model/QuotaDistributor.v). Generated from source: component/quota.py. Not modelled: a second tie inside _subtract_overaward (cases skipped and counted).'),
  'C01': dict(cat='proof', tech='Coq invariant proof over a Gallina model of HighestAverages.evaluate (all votes, seats, divisors, prev_gains, caps) + translator tie for divisor.py + extraction-based correspondence',
              text='Loop invariant (sorted duplicate-free exact quotient list, caps, optimality of every awarded seat against every remaining claim, seat accounting, tie exactness) proved by induction over the loop for every input and every positive non-decreasing divisor; the five built-in divisors and modified_first_coef wrappers are proved to satisfy the hypothesis and are regenerated from divisor.py on every run (GenTie lemmas). evaluate() itself is tied by differential runs (exhaustive small domain, random, constructed quotient ties, zero-vote/cap stream, 1e30 magnitudes).',
              ref='DESIGN.md 3 C01', note='Modelled, not verified: HighestAverages.evaluate (Model/HighestAverages.v). Generated from source: component/divisor.py.'),
